@@ -1,6 +1,6 @@
 (* Run/Exec_C02.v — executable entry point of the C02 correspondence check.
    run op args = "<implementation model output>|<specification output>|<known-finding class or ->" *)
-From BSV Require Import Base.Hex Model.Opcodes Model.Script Spec.ScriptTok.
+From BSV Require Import Base.Hex Model.Opcodes Model.Script Spec.ScriptTok Spec.OpcodeSpec.
 
 Definition show_tok (t : tok) : string :=
   match t with
@@ -66,10 +66,18 @@ Definition run_prefix (n : N) : string :=
   let spec := if (1 <=? n)%N && (n <? 4294967296)%N then "OK:" +++ hex_of_bytes (minimal_prefix n) else "-" in
   out3 impl spec "-".
 
+(* name and value of the opcode a single byte parses to: implementation = regenerated enum table,
+   specification = the protocol table of Spec/OpcodeSpec.v (bytes 1..75 are direct pushes, not opcodes) *)
+Definition run_opname (n : N) : string :=
+  let render t := match lookup_name t n with Some s => "OK:" +++ s +++ ";" +++ dec_of_N n | None => "ERR" end in
+  if (1 <=? n)%N && (n <=? 75)%N then out3 "PUSH" "PUSH" "-"
+  else out3 (render Gen.Opcodes_gen.opcode_table) (render opcode_spec_table) "-".
+
 Definition run (op : string) (args : list string) : string :=
   match op, args with
   | "script.parse", [a] => match expand a with Some bs => run_parse bs | None => "BADARG" end
   | "script.encode_pushdata", [a] => match expand a with Some bs => run_encode bs | None => "BADARG" end
+  | "script.opname", [a] => match N_of_dec a with Some n => if (n <? 256)%N then run_opname n else "BADARG" | None => "BADARG" end
   | "script.pushdata_prefix", [a] => match N_of_dec a with Some n => run_prefix n | None => "BADARG" end
   | _, _ => "BADOP"
   end.
